@@ -30,4 +30,4 @@ def run(tier, seed):
 
 
 def replay(path):
-    return V.replay(PROP, COMPS, path)
+    return V.replay(PROP, COMPS, path, SPEC)
